@@ -91,7 +91,8 @@ def _configs(tier, salts):
                         out.append((cfg, plan))
         # the broad option bank (every documented parameter at a non-default value somewhere)
         if salt == 0 or tier == "thorough":
-            for name, cfg in cfgs.broad_cfgs(salt=salt, budgets=(7, 25, 60) if tier == "quick" else (4, 7, 13, 25, 40, 60, 120)):
+            for name, cfg in cfgs.broad_cfgs(salt=salt, budgets=(7, 25, 60) if tier == "quick" else (4, 7, 13, 25, 40, 60, 120),
+                                             overlays=("avg", "soft")):
                 depth = 1 if (tier == "thorough" and cfg.get("memo", True) and "reg" not in cfg["broad_flags"] and cfg["maxfun"] in (13, 25)) else 0
                 out.append((cfg, {"depth": depth, "letters": ["best", "x3", "nan"]}))
     return out
